@@ -272,7 +272,15 @@ fn lint_case_with(linter: &Linter, case: &Value) -> Value {
       media_type: mt,
       text: src.into(),
       capture_tokens: true,
-      maybe_syntax: Some(deno_ast::get_syntax(mt)),
+      // "jsx_syntax": the embedder parses a non-JSX media type with JSX switched on (only possible through lint_with_ast)
+      maybe_syntax: Some(if case["jsx_syntax"].as_bool().unwrap_or(false) {
+        deno_ast::swc::parser::Syntax::Es(deno_ast::swc::parser::EsSyntax {
+          jsx: true,
+          ..Default::default()
+        })
+      } else {
+        deno_ast::get_syntax(mt)
+      }),
       scope_analysis: true,
     }) {
       Ok(ps) => Ok(linter.lint_with_ast(&ps, config, mk_external(case))),
@@ -413,8 +421,18 @@ fn opt_strs(v: &Value) -> Option<Vec<String>> {
 
 // case: {tags: null|[..], exclude: null|[..], include: null|[..]}
 fn select_case(case: &Value) -> Value {
+  // "perm": the caller's rule vector need not come in the order of get_all_rules(): "rev" / "rot<k>"
+  let mut all = get_all_rules();
+  match case["perm"].as_str() {
+    Some("rev") => all.reverse(),
+    Some(p) if p.starts_with("rot") => {
+      let k = p[3..].parse::<usize>().unwrap_or(1) % all.len().max(1);
+      all.rotate_left(k);
+    }
+    _ => {}
+  }
   let rs = filtered_rules(
-    get_all_rules(),
+    all,
     opt_strs(&case["tags"]),
     opt_strs(&case["exclude"]),
     opt_strs(&case["include"]),
@@ -888,11 +906,18 @@ fn main() {
   // big stack: deeply nested inputs recurse deeply in swc's visitors
   let child = std::thread::Builder::new()
     .stack_size(
-      std::env::var("VH_STACK_MB")
+      // VH_STACK_KB (exact) wins over VH_STACK_MB; default 256 MiB
+      std::env::var("VH_STACK_KB")
         .ok()
         .and_then(|v| v.parse::<usize>().ok())
-        .unwrap_or(256)
-        << 20,
+        .map(|kb| kb << 10)
+        .unwrap_or_else(|| {
+          std::env::var("VH_STACK_MB")
+            .ok()
+            .and_then(|v| v.parse::<usize>().ok())
+            .unwrap_or(256)
+            << 20
+        }),
     )
     .spawn(move || {
       let stdin = std::io::stdin();
